@@ -141,6 +141,8 @@ impl ZoneHandler for Logged {
 #[derive(Clone, Copy, Debug, PartialEq)]
 enum LRes {
     Ok,
+    /// `Ok(records)` holding a record that cannot be encoded (a 300-octet character-string)
+    Unenc,
     Err(u16),
 }
 
@@ -154,6 +156,12 @@ enum Flow {
 fn lres(r: LRes) -> Result<AuthLookup, LookupError> {
     match r {
         LRes::Ok => Ok(AuthLookup::Empty),
+        LRes::Unenc => {
+            let n = name("unencodable.invalid.");
+            let mut set = hickory_proto::rr::RecordSet::new(n.clone(), RecordType::TXT, 0);
+            set.insert(Record::from_rdata(n, 60, RData::TXT(TXT::new(vec!["y".repeat(300)]))), 0);
+            Ok(AuthLookup::answers(LookupRecords::new(LookupOptions::default(), Arc::new(set)), None))
+        }
         LRes::Err(rc) => Err(LookupError::ResponseCode(<ResponseCode as From<u16>>::from(rc))),
     }
 }
@@ -251,7 +259,7 @@ impl ZoneHandler for Scripted {
         self.note("x");
         match self.xfer {
             None => None,
-            Some(LRes::Ok) => Some((
+            Some(LRes::Ok) | Some(LRes::Unenc) => Some((
                 Ok(ZoneTransfer {
                     start_soa: LookupRecords::Empty,
                     records: AxfrRecords::new(false, vec![]),
@@ -282,10 +290,16 @@ enum HSpec {
 struct ZSpec {
     origin: Name,
     handlers: Vec<HSpec>,
+    /// `Catalog::remove(origin)` instead of an upsert
+    remove: bool,
 }
 
 struct Cfg {
     zones: Vec<ZSpec>,
+    /// the entry is a configured zone (not removed, not replaced by a later entry)
+    live: Vec<bool>,
+    /// origins for which `Catalog::contains` disagrees with that
+    contains_wrong: Vec<String>,
     deny: Vec<IpNet>,
     allow: Vec<IpNet>,
     catalog: Arc<Catalog>,
@@ -302,6 +316,7 @@ struct Cfg {
 fn parse_lres(s: &str) -> Option<LRes> {
     match s {
         "o" => Some(LRes::Ok),
+        "u" => Some(LRes::Unenc),
         _ => Some(LRes::Err(s.strip_prefix('e')?.parse().ok()?)),
     }
 }
@@ -321,6 +336,7 @@ fn parse_flow(s: &str) -> Option<Flow> {
 fn flow_tok(f: Flow) -> String {
     let r = |r: LRes| match r {
         LRes::Ok => "o".to_string(),
+        LRes::Unenc => "u".to_string(),
         LRes::Err(c) => format!("e{c}"),
     };
     match f {
@@ -365,7 +381,7 @@ fn handler_tok(h: &HSpec) -> String {
             update,
             match xfer {
                 None => "n".to_string(),
-                Some(LRes::Ok) => "o".into(),
+                Some(LRes::Ok) | Some(LRes::Unenc) => "o".into(),
                 Some(LRes::Err(c)) => format!("e{c}"),
             }
         ),
@@ -380,7 +396,10 @@ fn parse_zones(s: &str) -> Option<Vec<ZSpec>> {
         .map(|z| {
             let (n, hs) = z.split_once('=')?;
             let handlers = if hs == "-" { vec![] } else { hs.split(',').map(parse_handler).collect::<Option<_>>()? };
-            Some(ZSpec { origin: parse_name(n)?, handlers })
+            match n.strip_prefix('-') {
+                Some(n) => Some(ZSpec { origin: parse_name(n)?, handlers: vec![], remove: true }),
+                None => Some(ZSpec { origin: parse_name(n)?, handlers, remove: false }),
+            }
         })
         .collect()
 }
@@ -392,7 +411,7 @@ fn zones_tok(z: &[ZSpec]) -> String {
     z.iter()
         .map(|z| {
             let hs = if z.handlers.is_empty() { "-".to_string() } else { z.handlers.iter().map(handler_tok).collect::<Vec<_>>().join(",") };
-            format!("{}={}", name_tok(&z.origin), hs)
+            format!("{}{}={}", if z.remove { "-" } else { "" }, name_tok(&z.origin), hs)
         })
         .collect::<Vec<_>>()
         .join("|")
@@ -496,11 +515,38 @@ fn build_cfg(zones: Vec<ZSpec>, deny: Vec<IpNet>, allow: Vec<IpNet>) -> Cfg {
                 })),
             }
         }
-        catalog.upsert(LowerName::from(&z.origin), hs);
+        if z.remove {
+            catalog.remove(&LowerName::from(&z.origin));
+        } else {
+            catalog.upsert(LowerName::from(&z.origin), hs);
+        }
+    }
+    // which entries are the configured zones: an upsert that no later entry for the same key
+    // (same labels up to case, same fqdn flag) replaces or removes
+    let same_key = |a: &Name, b_: &Name| a.is_fqdn() == b_.is_fqdn() && a.iter().map(lower).eq(b_.iter().map(lower));
+    let live: Vec<bool> = (0..zones.len())
+        .map(|i| !zones[i].remove && !zones[i + 1..].iter().any(|l| same_key(&l.origin, &zones[i].origin)))
+        .collect();
+    // `Catalog::contains` must say so
+    let mut contains_wrong = vec![];
+    for (i, z) in zones.iter().enumerate() {
+        let last = (0..zones.len()).rev().find(|j| same_key(&zones[*j].origin, &z.origin)).unwrap_or(i);
+        if catalog.contains(&LowerName::from(&z.origin)) != live[last] {
+            contains_wrong.push(name_tok(&z.origin));
+        }
+    }
+    // every other catalog identifies itself (RFC 5001): the OPT of its responses carries the NSID
+    // when asked for — the rest of the response must not depend on it
+    if zones.len() >= 2 && zones.len() % 2 == 0 {
+        catalog.set_nsid(Some(hickory_proto::rr::rdata::opt::NSIDPayload::new(b"hk-verif".to_vec()).expect("nsid")));
+        assert!(catalog.nsid().is_some());
     }
     // survival probe: www.<first absolute in-memory zone>, else a fixed name
     let probe_name = zones
         .iter()
+        .enumerate()
+        .filter(|(i, _)| live[*i])
+        .map(|(_, z)| z)
         .find(|z| z.origin.is_fqdn() && matches!(z.handlers.first(), Some(HSpec::Mem { .. })))
         .and_then(|z| Name::from_ascii("www").ok()?.append_domain(&z.origin).ok())
         .unwrap_or_else(|| Name::from_ascii("alive.invalid.").unwrap());
@@ -509,7 +555,7 @@ fn build_cfg(zones: Vec<ZSpec>, deny: Vec<IpNet>, allow: Vec<IpNet>) -> Cfg {
     m.metadata.recursion_desired = true;
     m.add_query(Query::new(probe_name, RecordType::A));
     let probe = m.to_vec().expect("probe encodes");
-    Cfg { zones, deny, allow, catalog: Arc::new(catalog), mems, log, probe, baseline: vec![], loop_srv: RefCell::new(None) }
+    Cfg { zones, live, contains_wrong, deny, allow, catalog: Arc::new(catalog), mems, log, probe, baseline: vec![], loop_srv: RefCell::new(None) }
 }
 
 // ------------------------------------------------------------------ running one message
@@ -545,6 +591,41 @@ fn serve(rt: &tokio::runtime::Runtime, cfg: &Cfg, deny: &[IpNet], allow: &[IpNet
             out.push(m.into_parts().0);
         }
         out
+    })
+}
+
+/// `Request::from_bytes` + `<Catalog as RequestHandler>::handle_request` with a `ResponseHandle`
+/// (`None`: `from_bytes` failed)
+fn serve_catalog(rt: &tokio::runtime::Runtime, cfg: &Cfg, bytes: &[u8], src: SocketAddr, proto: Protocol) -> Option<Vec<Vec<u8>>> {
+    let catalog = cfg.catalog.clone();
+    rt.block_on(async move {
+        let request = Request::from_bytes(bytes.to_vec(), src, proto).ok()?;
+        // accessors of the request as the handler sees it
+        assert_eq!(request.as_slice(), bytes);
+        assert_eq!(request.src(), src);
+        let (handle, mut rx) = BufDnsStreamHandle::new(src);
+        let rh = hickory_server::server::ResponseHandle::new(src, handle, proto);
+        let echo = request.queries.as_bytes().to_vec();
+        catalog.handle_request::<_, TokioTime>(&request, rh).await;
+        let mut out = vec![];
+        while let Some(Some(m)) = rx.next().now_or_never() {
+            let m = m.into_parts().0;
+            // the question section of whatever is sent is `Queries::as_bytes()`
+            assert!(m.len() < 12 || u16::from_be_bytes([m[4], m[5]]) == 0 || m[12..].starts_with(&echo), "question section is not Queries::as_bytes()");
+            out.push(m);
+        }
+        Some(out)
+    })
+}
+
+/// the handler with a stream handle whose receiving end is gone: every send fails
+fn serve_closed(rt: &tokio::runtime::Runtime, cfg: &Cfg, bytes: &[u8], src: SocketAddr) {
+    let catalog = cfg.catalog.clone();
+    let (deny, allow) = (cfg.deny.clone(), cfg.allow.clone());
+    rt.block_on(async move {
+        let (handle, rx) = BufDnsStreamHandle::new(src);
+        drop(rx);
+        verif_handle_request(Shared(catalog), &deny, &allow, bytes.to_vec(), src, Protocol::Udp, handle).await;
     })
 }
 
@@ -673,9 +754,16 @@ fn marker() -> Vec<u8> {
     m
 }
 
+/// a request answered by the gate alone (NOTIMP) that is not the marker
+fn ping() -> Vec<u8> {
+    let mut m = marker();
+    m[1] ^= 0xFF;
+    m
+}
+
 /// the real `Server` (handle_udp / handle_tcp, UdpStream, TcpStream) on loopback sockets
 struct LoopSrv {
-    _server: Server<Shared>,
+    server: Server<Shared>,
     udp_addr: SocketAddr,
     tcp_addr: SocketAddr,
     client: tokio::net::UdpSocket,
@@ -691,7 +779,7 @@ async fn start_loop(cfg: &Cfg) -> io::Result<LoopSrv> {
     let tcp_addr = l.local_addr()?;
     server.register_listener(l, Duration::from_secs(30), 32);
     let client = tokio::net::UdpSocket::bind("127.0.0.1:0").await?;
-    Ok(LoopSrv { _server: server, udp_addr, tcp_addr, client, conn: None })
+    Ok(LoopSrv { server, udp_addr, tcp_addr, client, conn: None })
 }
 
 /// one request through the real server loop; every datagram / frame that comes back before the
@@ -1063,10 +1151,10 @@ fn encloses(zone: &Name, name: &Name) -> bool {
 
 /// index of the configured zone with the longest origin enclosing `name` (the last upsert of an
 /// origin is the configured one)
-fn right_zone(zones: &[ZSpec], name: &Name) -> Option<usize> {
+fn right_zone(zones: &[ZSpec], live: &[bool], name: &Name) -> Option<usize> {
     let mut best: Option<usize> = None;
     for (i, z) in zones.iter().enumerate() {
-        if encloses(&z.origin, name) {
+        if live[i] && encloses(&z.origin, name) {
             match best {
                 Some(b) if zones[b].origin.num_labels() > z.origin.num_labels() => {}
                 _ => best = Some(i),
@@ -1103,6 +1191,16 @@ const BADVERS: u16 = 16;
 
 impl Runner {
     fn exec(&mut self, line: &str, rec: &mut Recorder) {
+        let t0 = Instant::now();
+        self.exec_inner(line, rec);
+        if std::env::var("C11_TIMING").is_ok() {
+            let t: Vec<&str> = line.split_whitespace().collect();
+            let k = format!("zz-time-us.{}.{}", t.first().unwrap_or(&""), if t.first() == Some(&"req") { t.get(1).unwrap_or(&"") } else { "" });
+            rec.stat_n(&k, t0.elapsed().as_micros() as u64);
+        }
+    }
+
+    fn exec_inner(&mut self, line: &str, rec: &mut Recorder) {
         let t: Vec<&str> = line.split_whitespace().collect();
         match t.as_slice() {
             ["begin", zones, deny, allow] => {
@@ -1126,6 +1224,12 @@ impl Runner {
                     }
                     Err(p) => rec.fail(idx, format!("panic on the known-good probe query: {p}"), ""),
                 }
+                if !cfg.contains_wrong.is_empty() {
+                    rec.fail(idx, format!("Catalog::contains disagrees with the upsert/remove history for {:?}", cfg.contains_wrong), "");
+                }
+                if cfg.zones.iter().any(|z| z.remove) {
+                    rec.stat("cfg.with-removed-zone");
+                }
                 rec.stat(&format!("cfg.zones={}", cfg.zones.len().min(6)));
                 rec.stat(&format!("cfg.acl.deny={} allow={}", b(!cfg.deny.is_empty()), b(!cfg.allow.is_empty())));
                 if cfg.zones.iter().any(|z| z.handlers.len() > 1) {
@@ -1134,10 +1238,26 @@ impl Runner {
                 self.cfg = Some(cfg);
             }
             ["end"] => {
+                let idx = rec.case(line.to_string(), "ok".into());
+                // a server that ran on loopback sockets during the block shuts down in good order
+                if let Some(mut srv) = self.cfg.as_ref().and_then(|c| c.loop_srv.borrow_mut().take()) {
+                    let r = self.rt.block_on(async { tokio::time::timeout(Duration::from_secs(5), srv.server.shutdown_gracefully()).await });
+                    match r {
+                        Ok(Ok(())) => rec.stat("loop.shutdown-ok"),
+                        Ok(Err(e)) => rec.fail(idx, format!("the server loop ended with an error at shutdown: {e}"), ""),
+                        Err(_) => rec.fail(idx, "the server did not shut down within 5 s", ""),
+                    }
+                }
                 self.cfg = None;
-                rec.case(line.to_string(), "ok".into());
             }
-            ["req", proto, src, bytes, ..] => {
+            ["tcp", stream] => {
+                let (Some(cfg), Some(bytes)) = (self.cfg.as_ref(), unhex(stream)) else {
+                    rec.stat("skipped.unparsable-case");
+                    return;
+                };
+                Self::tcp_raw(&self.rt, cfg, line, &bytes, rec);
+            }
+            [kind @ ("req" | "cat"), proto, src, bytes, ..] => {
                 let (Some(cfg), Some(ip), Some(bytes)) = (self.cfg.as_ref(), parse_ip(src), unhex(bytes)) else {
                     rec.stat("skipped.unparsable-case");
                     return;
@@ -1145,7 +1265,7 @@ impl Runner {
                 let protocol = if matches!(*proto, "t" | "T") { Protocol::Tcp } else { Protocol::Udp };
                 // `U` / `T`: through the real server loop on loopback — the source is 127.0.0.1
                 let ip = if matches!(*proto, "U" | "T") { IpAddr::V4(Ipv4Addr::LOCALHOST) } else { ip };
-                Self::request(&self.rt, cfg, proto, ip, protocol, &bytes, rec);
+                Self::request(&self.rt, cfg, kind, proto, ip, protocol, &bytes, rec);
             }
             ["udp", recv, send] => {
                 let Some(cfg) = self.cfg.as_ref() else {
@@ -1155,6 +1275,108 @@ impl Runner {
                 Self::udp_script(&self.rt, cfg, line, recv, send, rec);
             }
             _ => rec.stat("skipped.unparsable-case"),
+        }
+    }
+
+    /// `tcp <hex>`: a raw octet stream on a fresh TCP connection to the real server (several
+    /// length-prefixed requests back to back, possibly a partial frame at the end), write side closed
+    /// after the last octet; everything the server sends until it closes the connection is read.
+    fn tcp_raw(rt: &tokio::runtime::Runtime, cfg: &Cfg, line: &str, stream: &[u8], rec: &mut Recorder) {
+        *CURRENT.lock().unwrap() = Some((Instant::now(), line.to_string()));
+        // the complete frames of the stream (a zero-length frame ends the connection: see there)
+        let mut frames: Vec<&[u8]> = vec![];
+        let mut p = 0;
+        while p + 2 <= stream.len() {
+            let l = u16::from_be_bytes([stream[p], stream[p + 1]]) as usize;
+            if l == 0 || p + 2 + l > stream.len() {
+                break;
+            }
+            frames.push(&stream[p + 2..p + 2 + l]);
+            p += 2 + l;
+        }
+        // reference: what the handler produces for each of them, in order
+        let src: SocketAddr = "127.0.0.1:4242".parse().unwrap();
+        let mut want: Vec<Vec<u8>> = vec![];
+        let mut fails: Vec<String> = vec![];
+        for f in &frames {
+            match catch(|| serve(rt, cfg, &cfg.deny, &cfg.allow, f, src, Protocol::Tcp)) {
+                Ok(v) => want.extend(v),
+                Err(p_) => fails.push(format!("panic while handling a request: {p_}")),
+            }
+        }
+        cfg.log.lock().unwrap().clear();
+        // make sure the server runs
+        let _ = serve_loop(rt, cfg, &ping(), true);
+        let got: Result<Vec<Vec<u8>>, String> = rt.block_on(async {
+            let addr = cfg.loop_srv.borrow().as_ref().map(|s| s.tcp_addr).ok_or("no server")?;
+            let io = async {
+                let mut c = tokio::net::TcpStream::connect(addr).await?;
+                c.write_all(stream).await?;
+                c.shutdown().await?;
+                // everything up to the end of the connection (a reset after data still counts)
+                let mut all = vec![];
+                let mut buf = vec![0u8; 65536];
+                loop {
+                    match c.read(&mut buf).await {
+                        Ok(0) => break,
+                        Ok(n) => all.extend(&buf[..n]),
+                        Err(e) if e.kind() == io::ErrorKind::ConnectionReset => break,
+                        Err(e) => return Err(e),
+                    }
+                }
+                Ok::<Vec<u8>, io::Error>(all)
+            };
+            let all = match tokio::time::timeout(Duration::from_secs(5), io).await {
+                Ok(Ok(a)) => a,
+                Ok(Err(e)) => return Err(format!("client i/o: {e}")),
+                Err(_) => return Err("the server neither answered nor closed the connection within 5 s".to_string()),
+            };
+            let mut out = vec![];
+            let mut p = 0;
+            while p + 2 <= all.len() {
+                let l = u16::from_be_bytes([all[p], all[p + 1]]) as usize;
+                if p + 2 + l > all.len() {
+                    return Err("the server sent a partial frame".to_string());
+                }
+                out.push(all[p + 2..p + 2 + l].to_vec());
+                p += 2 + l;
+            }
+            Ok(out)
+        });
+        if std::env::var("C11_TIMING").is_ok() {
+            eprintln!("tcp-io {} us frames={} len={} tail={}", CURRENT.lock().unwrap().as_ref().map(|c| c.0.elapsed().as_micros()).unwrap_or(0), frames.len(), stream.len(), stream.len() - p);
+        }
+        cfg.log.lock().unwrap().clear();
+        // and the server still serves the next connection
+        match serve_loop(rt, cfg, &ping(), true) {
+            Ok(v) if v.len() == 1 => {}
+            Ok(v) => fails.push(format!("after the stream: {} responses to a request on a new connection", v.len())),
+            Err(w) => fails.push(format!("after the stream: {w}")),
+        }
+        cfg.log.lock().unwrap().clear();
+        *CURRENT.lock().unwrap() = None;
+        rec.stat("tcp.streams");
+        rec.stat_n("tcp.frames", frames.len() as u64);
+        if p < stream.len() {
+            rec.stat("tcp.partial-or-empty-tail");
+        }
+        match &got {
+            Err(w) => fails.push(format!("transport: {w}")),
+            Ok(v) if *v != want => fails.push(format!(
+                "{} complete requests on one connection: the handler produces {} responses, {} came back (or other bytes / another order)",
+                frames.len(),
+                want.len(),
+                v.len()
+            )),
+            _ => {}
+        }
+        rec.impl_only += 1;
+        let idx = rec.case(line.to_string(), "~".into());
+        if frames.len() > 1 {
+            rec.nontrivial(idx);
+        }
+        for f in fails {
+            rec.fail(idx, f, "");
         }
     }
 
@@ -1266,12 +1488,12 @@ impl Runner {
         }
     }
 
-    fn request(rt: &tokio::runtime::Runtime, cfg: &Cfg, proto: &str, ip: IpAddr, protocol: Protocol, bytes: &[u8], rec: &mut Recorder) {
+    fn request(rt: &tokio::runtime::Runtime, cfg: &Cfg, kind: &str, proto: &str, ip: IpAddr, protocol: Protocol, bytes: &[u8], rec: &mut Recorder) {
         let src = SocketAddr::new(ip, 4242);
         // summary by the real decoder → canonical case line
         let parsed = catch(|| parse_request(bytes));
         let Ok(parsed) = parsed else {
-            let idx = rec.case(format!("req {proto} {} {} na - -", ip_tok(ip), hex(bytes)), "panic decoder".into());
+            let idx = rec.case(format!("{kind} {proto} {} {} na - -", ip_tok(ip), hex(bytes)), "panic decoder".into());
             rec.fail(idx, "the request decoder panicked", "");
             return;
         };
@@ -1310,14 +1532,30 @@ impl Runner {
             _ => vec![],
         };
         let zl_tok = if zl.is_empty() { "-".to_string() } else { zl.join(",") };
-        let line = format!("req {proto} {} {} {body_tok} {edns_tok} {zl_tok}", ip_tok(ip), hex(bytes));
+        let line = format!("{kind} {proto} {} {} {body_tok} {edns_tok} {zl_tok}", ip_tok(ip), hex(bytes));
         *CURRENT.lock().unwrap() = Some((Instant::now(), line.clone()));
 
         cfg.log.lock().unwrap().clear();
         let loop_mode = matches!(proto, "U" | "T");
         let mut transport_fails: Vec<String> = vec![];
         let mut unsendable = false;
-        let got = if !loop_mode {
+        let entry_cat = kind == "cat";
+        let closed = proto == "x";
+        let mut from_bytes_ok = true;
+        let got = if entry_cat {
+            // the other public way in: Request::from_bytes + Catalog::handle_request, no gate
+            catch(|| serve_catalog(rt, cfg, bytes, src, protocol)).map(|r| match r {
+                Some(v) => v,
+                None => {
+                    from_bytes_ok = false;
+                    vec![]
+                }
+            })
+        } else if closed {
+            // the response cannot be handed over (the receiving end of the stream handle is gone):
+            // every `send_response` fails inside the handler
+            catch(|| serve_closed(rt, cfg, bytes, src)).map(|_| vec![])
+        } else if !loop_mode {
             catch(|| serve(rt, cfg, &cfg.deny, &cfg.allow, bytes, src, protocol))
         } else {
             // reference: what the handler produces for this request (hook, no transport) …
@@ -1409,8 +1647,27 @@ impl Runner {
                 }
             },
         };
-        // an unsendable response: the model (which has no transport) says `reply`, nothing can arrive
-        let out = if unsendable { rec.impl_only += 1; "~".to_string() } else { out };
+        // a handler result that cannot be encoded was involved: `MessageResponse::encode` falls back
+        // to a bare SERVFAIL header — the model describes responses whose encoding succeeds
+        let unenc = log.iter().any(|c| {
+            let (k, rest) = c.split_at(1);
+            rest.split_once('.')
+                .and_then(|(z, h)| Some((z.parse::<usize>().ok()?, h.parse::<usize>().ok()?)))
+                .is_some_and(|(z, h)| match cfg.zones[z].handlers.get(h) {
+                    Some(HSpec::Scr { search, consult, .. }) => {
+                        let un = |f: &Flow| matches!(f, Flow::Cont(LRes::Unenc) | Flow::Brk(LRes::Unenc));
+                        (k == "s" && un(search)) || (k == "c" && consult.as_ref().is_some_and(un))
+                    }
+                    _ => false,
+                })
+        });
+        if unenc {
+            rec.stat("class.unencodable-handler-result");
+        }
+        let out = if entry_cat && !from_bytes_ok { "err".to_string() } else { out };
+        // no model side: an unsendable response (the model has no transport), a closed stream handle,
+        // an unencodable handler result
+        let out = if unsendable || closed || unenc { rec.impl_only += 1; "~".to_string() } else { out };
         let idx = rec.case(line, out);
 
         // ---------------------------------------------------------------- oracle
@@ -1431,7 +1688,20 @@ impl Runner {
         let must_drop = bytes.len() < 12 || hdr_qr;
         rec.stat(&format!("proto.{proto}"));
         rec.stat(&format!("responses.{}", n.min(3)));
-        if got.is_ok() {
+        if got.is_ok() && closed {
+            rec.stat("class.closed-stream-handle");
+        } else if got.is_ok() && entry_cat {
+            // Request::from_bytes succeeds exactly when header, question and body decode — the same
+            // three steps ServerContext::handle_request makes one by one
+            let expect_ok = parsed.header.is_some() && parsed.question.is_some() && parsed.body == Some(true);
+            if from_bytes_ok != expect_ok {
+                fails.push((format!("Request::from_bytes {} but header/question/body decoding says {}", if from_bytes_ok { "succeeded" } else { "failed" }, expect_ok), ""));
+            }
+            rec.stat(if from_bytes_ok { "cat.from_bytes.ok" } else { "cat.from_bytes.err" });
+            if n != from_bytes_ok as usize {
+                fails.push((format!("{n} responses from Catalog::handle_request for one request"), ""));
+            }
+        } else if got.is_ok() {
             if must_drop {
                 rec.stat(if bytes.len() < 12 { "class.short" } else { "class.qr=1" });
                 if n != 0 {
@@ -1441,7 +1711,7 @@ impl Runner {
                 fails.push((format!("{n} responses to one request (exactly one expected)"), ""));
             }
         }
-        if let (false, Some(r), Ok(v)) = (must_drop, resp.as_ref(), got.as_ref()) {
+        if let (false, Some(r), Ok(v)) = (must_drop && !entry_cat, resp.as_ref(), got.as_ref()) {
             let opcode = (bytes[2] >> 3) & 0xF;
             let id = u16::from_be_bytes([bytes[0], bytes[1]]);
             let rc = (r.opt.map(|o| (o.0 as u16) << 4).unwrap_or(0)) | r.rc_low as u16;
@@ -1457,7 +1727,8 @@ impl Runner {
             if !r.scan_ok {
                 fails.push(("response is not a well-formed sequence of sections".into(), ""));
             }
-            let known_op = matches!(opcode, 0 | 2 | 4 | 5);
+            // (through Catalog::handle_request directly every request has its question parsed)
+            let known_op = matches!(opcode, 0 | 2 | 4 | 5) || entry_cat;
             // the table: which verdicts apply to this request
             let mut s: Vec<u16> = vec![];
             if !matches!(opcode, 0 | 5) {
@@ -1472,18 +1743,19 @@ impl Runner {
                     rec.stat("note.reference-says-bad-decoder-says-ok");
                 }
             }
-            let unparsable = parsed.question.is_none() || parsed.body == Some(false) || ref_bad.is_some();
+            // (the catalog on its own: a message that is itself a response is a format error)
+            let unparsable = parsed.question.is_none() || parsed.body == Some(false) || ref_bad.is_some() || (entry_cat && hdr_qr);
             if unparsable {
                 s.push(FORMERR);
             }
-            let denied = ref_denied(&cfg.deny, &cfg.allow, ip);
+            let denied = !entry_cat && ref_denied(&cfg.deny, &cfg.allow, ip);
             if denied {
                 s.push(REFUSED);
             }
             if parsed.edns_version.is_some_and(|v| v > 0) {
                 s.push(BADVERS);
             }
-            let zone = parsed.question.as_ref().and_then(|(_, q)| right_zone(&cfg.zones, &q.name));
+            let zone = parsed.question.as_ref().and_then(|(_, q)| right_zone(&cfg.zones, &cfg.live, &q.name));
             if opcode == 0 && parsed.question.is_some() && zone.is_none() {
                 s.push(REFUSED);
             }
@@ -1541,7 +1813,9 @@ impl Runner {
                                 "the question of the response does not decode to the request's question{}",
                                 if compressed { " (compressed question name in the request)" } else { "" }
                             ),
-                            "",
+                            // the header-only SERVFAIL that `MessageResponse::encode` falls back to when a
+                            // handler's records cannot be encoded
+                            if unenc && r.qd == 0 && rc == 2 { "C11.EncodeFallbackDropsQuestion" } else { "" },
                         ));
                     }
                 }
@@ -1602,7 +1876,13 @@ fn name(s: &str) -> Name {
 const RCS: &[u16] = &[1, 2, 3, 4, 5, 9, 8, 10, 16, 23];
 
 fn gen_lres(r: &mut Rng) -> LRes {
-    if r.chance(1, 2) { LRes::Ok } else { LRes::Err(*r.pick(RCS)) }
+    if r.chance(1, 14) {
+        LRes::Unenc
+    } else if r.chance(1, 2) {
+        LRes::Ok
+    } else {
+        LRes::Err(*r.pick(RCS))
+    }
 }
 
 fn gen_flow(r: &mut Rng) -> Flow {
@@ -1669,7 +1949,17 @@ fn gen_zones(r: &mut Rng) -> Vec<ZSpec> {
         1 => 1,
         _ => r.range(2, 7) as usize,
     };
-    let mut z: Vec<ZSpec> = (0..k).map(|_| ZSpec { origin: r.pick(&pool).clone(), handlers: gen_handlers(r) }).collect();
+    let mut z: Vec<ZSpec> = (0..k).map(|_| ZSpec { origin: r.pick(&pool).clone(), handlers: gen_handlers(r), remove: false }).collect();
+    if r.chance(1, 8) && !z.is_empty() {
+        // remove a configured origin again (written in another case), sometimes configure it anew
+        let victim = r.pick(&z).origin.clone();
+        let mut o = Name::from_ascii(victim.to_ascii().to_uppercase()).unwrap_or(victim.clone());
+        o.set_fqdn(victim.is_fqdn());
+        z.push(ZSpec { origin: o, handlers: vec![], remove: true });
+        if r.chance(1, 3) {
+            z.push(ZSpec { origin: victim, handlers: gen_handlers(r), remove: false });
+        }
+    }
     if r.chance(1, 6) && !z.is_empty() {
         // upsert the same origin again (different letter case): replaces the handlers
         let mut o = z[0].origin.to_ascii().to_uppercase();
@@ -1679,7 +1969,7 @@ fn gen_zones(r: &mut Rng) -> Vec<ZSpec> {
         if let Ok(n) = Name::from_ascii(&o) {
             let mut n = n;
             n.set_fqdn(z[0].origin.is_fqdn());
-            z.push(ZSpec { origin: n, handlers: gen_handlers(r) });
+            z.push(ZSpec { origin: n, handlers: gen_handlers(r), remove: false });
         }
     }
     z
@@ -2298,7 +2588,7 @@ fn body_family() -> Vec<(String, Vec<u8>)> {
 }
 
 fn hand_configs() -> Vec<(Vec<ZSpec>, Vec<IpNet>, Vec<IpNet>)> {
-    let mem = |s: &str| ZSpec { origin: name(s), handlers: vec![HSpec::Mem { axfr: false }] };
+    let mem = |s: &str| ZSpec { origin: name(s), handlers: vec![HSpec::Mem { axfr: false }], remove: false };
     let net = |s: &str| s.parse::<IpNet>().unwrap();
     let scr = |zt, search, consult| HSpec::Scr { zt, search, consult, update: 0, xfer: None };
     use Flow::*;
@@ -2313,15 +2603,15 @@ fn hand_configs() -> Vec<(Vec<ZSpec>, Vec<IpNet>, Vec<IpNet>)> {
         // the chained configurations of chained_zone_handler_tests.rs
         (
             vec![
-                ZSpec { origin: name("continueok.test."), handlers: vec![scr(External, Cont(LRes::Ok), None), scr(External, Cont(LRes::Ok), None)] },
-                ZSpec { origin: name("overwrite.test."), handlers: vec![scr(External, Cont(LRes::Ok), None), scr(External, Skip, Some(Cont(LRes::Err(3))))] },
-                ZSpec { origin: name("breakok.test."), handlers: vec![scr(External, Brk(LRes::Ok), None), scr(External, Brk(LRes::Err(2)), Some(Brk(LRes::Err(2))))] },
-                ZSpec { origin: name("skipprimary.test."), handlers: vec![scr(External, Skip, None), scr(External, Cont(LRes::Ok), None)] },
-                ZSpec { origin: name("skipboth.test."), handlers: vec![scr(Primary, Skip, None), scr(Primary, Skip, None)] },
-                ZSpec { origin: name("primaryerr.test."), handlers: vec![scr(Primary, Cont(LRes::Err(3)), None), scr(Primary, Skip, Some(Cont(LRes::Ok)))] },
-                ZSpec { origin: name("breakerr.test."), handlers: vec![scr(Primary, Brk(LRes::Err(3)), None), scr(Primary, Skip, Some(Cont(LRes::Ok)))] },
-                ZSpec { origin: name("consultskip.test."), handlers: vec![scr(Primary, Cont(LRes::Ok), None), scr(Primary, Skip, Some(Skip))] },
-                ZSpec { origin: name("memfirst.test."), handlers: vec![HSpec::Mem { axfr: true }, scr(Primary, Skip, None)] },
+                ZSpec { origin: name("continueok.test."), handlers: vec![scr(External, Cont(LRes::Ok), None), scr(External, Cont(LRes::Ok), None)], remove: false },
+                ZSpec { origin: name("overwrite.test."), handlers: vec![scr(External, Cont(LRes::Ok), None), scr(External, Skip, Some(Cont(LRes::Err(3))))], remove: false },
+                ZSpec { origin: name("breakok.test."), handlers: vec![scr(External, Brk(LRes::Ok), None), scr(External, Brk(LRes::Err(2)), Some(Brk(LRes::Err(2))))], remove: false },
+                ZSpec { origin: name("skipprimary.test."), handlers: vec![scr(External, Skip, None), scr(External, Cont(LRes::Ok), None)], remove: false },
+                ZSpec { origin: name("skipboth.test."), handlers: vec![scr(Primary, Skip, None), scr(Primary, Skip, None)], remove: false },
+                ZSpec { origin: name("primaryerr.test."), handlers: vec![scr(Primary, Cont(LRes::Err(3)), None), scr(Primary, Skip, Some(Cont(LRes::Ok)))], remove: false },
+                ZSpec { origin: name("breakerr.test."), handlers: vec![scr(Primary, Brk(LRes::Err(3)), None), scr(Primary, Skip, Some(Cont(LRes::Ok)))], remove: false },
+                ZSpec { origin: name("consultskip.test."), handlers: vec![scr(Primary, Cont(LRes::Ok), None), scr(Primary, Skip, Some(Skip))], remove: false },
+                ZSpec { origin: name("memfirst.test."), handlers: vec![HSpec::Mem { axfr: true }, scr(Primary, Skip, None)], remove: false },
             ],
             vec![],
             vec![],
@@ -2361,8 +2651,8 @@ fn gen_udp_script(r: &mut Rng, zones: &[ZSpec], deny: &[IpNet], allow: &[IpNet],
 /// and send-failure scripts on the real `UdpStream`
 fn transport_block(run: &mut Runner, rec: &mut Recorder) {
     let zones = vec![
-        ZSpec { origin: name("big.test."), handlers: vec![HSpec::Mem { axfr: true }] },
-        ZSpec { origin: name("example.com."), handlers: vec![HSpec::Mem { axfr: false }] },
+        ZSpec { origin: name("big.test."), handlers: vec![HSpec::Mem { axfr: true }], remove: false },
+        ZSpec { origin: name("example.com."), handlers: vec![HSpec::Mem { axfr: false }], remove: false },
     ];
     run.exec(&format!("begin {} - -", zones_tok(&zones)), rec);
     let q = |n: &str, t: u16, edns: Option<u16>, id: u16| -> Vec<u8> {
@@ -2427,7 +2717,7 @@ pub fn run(o: &Opts, rec: &mut Recorder) {
     // small-scope enumeration of the two flag octets of the header (QR, opcode, AA, TC, RD | RA, Z,
     // AD, CD, rcode) over a fixed question: quick = every value of each octet, thorough = all 65536
     {
-        let zones = vec![ZSpec { origin: name("example.com."), handlers: vec![HSpec::Mem { axfr: false }] }];
+        let zones = vec![ZSpec { origin: name("example.com."), handlers: vec![HSpec::Mem { axfr: false }], remove: false }];
         run.exec(&format!("begin {} - -", zones_tok(&zones)), rec);
         let q: Vec<u8> = [wire_name(&labels_of(&name("www.example.com."))), vec![0, 6, 0, 1]].concat();
         let mut one = |b2: u8, b3: u8, run: &mut Runner, rec: &mut Recorder| {
@@ -2449,7 +2739,7 @@ pub fn run(o: &Opts, rec: &mut Recorder) {
     }
     // directed body family: section × opcode × record shape, against one in-memory zone
     {
-        let zones = vec![ZSpec { origin: name("example.com."), handlers: vec![HSpec::Mem { axfr: false }] }];
+        let zones = vec![ZSpec { origin: name("example.com."), handlers: vec![HSpec::Mem { axfr: false }], remove: false }];
         run.exec(&format!("begin {} - -", zones_tok(&zones)), rec);
         for (label, m) in body_family() {
             rec.stat(&format!("bodyfam.{}", label.split('.').nth(2).unwrap_or("")));
@@ -2472,7 +2762,7 @@ pub fn run(o: &Opts, rec: &mut Recorder) {
         };
         run.exec(&format!("begin {} {} {}", zones_tok(&zones), nets_tok(&deny), nets_tok(&allow)), rec);
         // one block in four also runs through the transports under the handler
-        let transports = bi % 4 == 1;
+        let transports = if o.thorough() { bi % 16 == 1 } else { bi % 4 == 1 };
         for _ in 0..per_block {
             let bytes = gen_request(&mut r, &zones, i);
             i += 1;
@@ -2480,12 +2770,42 @@ pub fn run(o: &Opts, rec: &mut Recorder) {
             let mut proto = if r.chance(1, 3) { "t" } else { "u" };
             if transports && r.chance(1, 5) && bytes.len() < 60000 && !(bytes.len() >= 2 && bytes[..2] == MARK_ID.to_be_bytes()) {
                 // through Server::register_socket / register_listener on loopback
-                proto = if proto == "t" { "T" } else { "U" };
+                proto = if proto == "t" && r.chance(1, 2) { "T" } else { "U" };
             }
-            run.exec(&format!("req {proto} {} {} ? ? ?", ip_tok(src), hex(&bytes)), rec);
+            let mut kind = "req";
+            if matches!(proto, "u" | "t") {
+                match r.below(40) {
+                    // Request::from_bytes + Catalog::handle_request without the gate in front
+                    0..=3 => kind = "cat",
+                    // a stream handle whose receiver is gone
+                    4 => proto = "x",
+                    _ => {}
+                }
+            }
+            run.exec(&format!("{kind} {proto} {} {} ? ? ?", ip_tok(src), hex(&bytes)), rec);
             if transports && r.chance(1, 6) {
                 let l = gen_udp_script(&mut r, &zones, &deny, &allow, &mut i);
                 run.exec(&l, rec);
+            }
+            if transports && r.chance(1, 30) {
+                // several requests back to back on one TCP connection, sometimes a partial frame last
+                let mut st = vec![];
+                for _ in 0..r.range(1, 4) {
+                    let mut m = gen_request(&mut r, &zones, i);
+                    i += 1;
+                    m.truncate(3000);
+                    if m.len() >= 2 && m[..2] == MARK_ID.to_be_bytes() {
+                        m[0] ^= 1;
+                    }
+                    st.extend((m.len() as u16).to_be_bytes());
+                    st.extend(m);
+                }
+                match r.below(4) {
+                    0 => st.extend([0, 40, 1, 2, 3]),
+                    1 => st.push(0),
+                    _ => {}
+                }
+                run.exec(&format!("tcp {}", hex(&st)), rec);
             }
         }
         run.exec("end", rec);
